@@ -873,6 +873,12 @@ class Registry:
     def apply_contract(self, ex: Executor, st: State, c: Contract, f: VFunc, args, kwargs, node):
         ln = getattr(node, "lineno", 0)
         env = self.contract_env(ex, st, c, f, args, kwargs, node)
+        for pn, tx in c.args.items():
+            if pn in env:
+                try:
+                    self.coerce_to_view(ex, st, env[pn], self.parse_type(tx))
+                except ValueError:
+                    pass
         short = c.qualname.split(".")[-1]
         for cl in c.requires:
             t = self.spec_eval(ex, st, cl.fn, self.lambda_env(cl.fn, env))
@@ -949,6 +955,26 @@ class Registry:
                 ex.setattr(st, base, b.left.attr, val)
                 return True
         return False
+
+    def coerce_to_view(self, ex, st, v, ty):
+        """An object created by the code under verification and passed where a contract declares a (ghost) view:
+        adopt the view and give its still-untyped empty lists the element types the view declares."""
+        if not (isinstance(ty, tuple) and ty[0] == "obj" and isinstance(v, VRef) and isinstance(st.cell(v), ObjCell)):
+            return
+        kd = self.klasses[ty[1]]
+        c = st.cell(v)
+        flds = dict(c.fields)
+        for k, tx in kd.fields.items():
+            fty = self.parse_type(tx)
+            cur = flds.get(k)
+            if isinstance(fty, tuple) and fty[0] == "list" and isinstance(cur, VRef) and isinstance(st.cell(cur), ListCell):
+                lc = st.cell(cur)
+                if lc.elem is None and not lc.items:
+                    st.set_cell(cur, ListCell(fty[1], z3.Empty(TSeq(fty[1]).sort()), None, lc.owner))
+            elif isinstance(fty, tuple) and fty[0] == "obj":
+                self.coerce_to_view(ex, st, cur, fty)
+        if c.view is None:
+            st.set_cell(v, ObjCell(c.cls, flds, c.owner, ty[1]))
 
     def fresh_exception(self, ex, st, cls) -> VRef:
         kd = self.klass_of(cls)
@@ -1108,7 +1134,7 @@ class Registry:
             if isinstance(v, VRef):
                 c = st.cell(v)
                 if isinstance(c, ListCell) and c.elem is None and not c.items:
-                    ty = lc.types.get(r.split(".")[-1]) if lc else None
+                    ty = (lc.types.get(r.replace(".", "__")) or lc.types.get(r.split(".")[-1])) if lc else None
                     if ty is None:
                         raise EngineUnsupported(f"loop mutates untyped empty list {r}: declare types={{...}}")
                     pt = self.parse_type(ty)
@@ -1147,8 +1173,15 @@ class Registry:
         """Empty python-level lists whose type the loop contract declares become typed (z3-level) empty lists."""
         if lc is None:
             return
+        roots = {}
         for n, tx in lc.types.items():
             v = st.env.get(n)
+            if v is None and "__" in n:          # attribute path written with '__' (context__errors)
+                try:
+                    r = ex.eval(st.clone(), ast.parse(n.replace("__", "."), mode="eval").body)
+                    v = r[0][1] if r and not isinstance(r[0][1], Raised) else None
+                except EngineUnsupported:
+                    v = None
             if isinstance(v, VRef) and isinstance(st.cell(v), ListCell):
                 c = st.cell(v)
                 if c.elem is None and not c.items:
